@@ -84,8 +84,13 @@ def ev_simplify(S_raw, ctx_raw, via="list", with_ctx=True):
 # ------------------------------------------------------------------ C03
 def fwd_hints(L, Rr, names):
     out = []
+    inf = None
     for t in Rr:
         h = H.cert(L, names, t, exact_only=True, box=False) or H.witness(L, names, t)
+        if h is None:
+            if inf is None:
+                inf = H.infeas_cert(L, names, box=False) or False      # an unsatisfiable left side implies rows over variables it never mentions
+            h = inf or None
         out.append(h or dict(NONE))
     return out
 
